@@ -31,8 +31,10 @@ NewConn(requirepass) ==
    ends |-> <<>>, upto |-> 0,   \* byte offsets of the current batch: end of each request, bytes delivered
    nreq |-> 0,             \* requests delivered completely
    nrep |-> 0,             \* replies written
-   calls |-> <<>>,         \* handler calls since the last reply
-   wbuf |-> <<>>,          \* bytes of a reply frame written so far (a frame may take several writes)
+   calls |-> <<>>,         \* handler calls not yet attributed to an answered request (in call order)
+   wbuf |-> <<>>,          \* bytes of an incomplete reply frame written so far (a frame may take several writes,
+                           \* and one write may hold several frames: the server may batch replies as long as
+                           \* everything is written before it waits for input)
    quit |-> FALSE, closed |-> FALSE, returned |-> FALSE, lost |-> FALSE,
    wild |-> FALSE,         \* the client sends arbitrary bytes (C07 offender): replies are only required to be RESP frames
    eos |-> "none",         \* "none" | "half" | "full": how the client ended the stream
@@ -178,12 +180,14 @@ OnBlock(cs) ==
 
 \* a handler call: only for a completely received request (C11), only when authorized (C08),
 \* seeing this connection's own state (C13), while registered (C15)
+\* The call is queued with the number of requests received completely at that moment; which request it belongs to,
+\* and whether it saw the right connection state, is decided when that request's reply is written (Reply1): the
+\* trace does not say when the server finished one request and began the next, and a server that answers a pipeline
+\* with one write runs the handlers of several requests before any of their replies is visible.
 OnCall(cs, e) ==
   IF cs.wild THEN (IF Live(cs) /\ ~cs.closed /\ (cs.auth \/ e.m = "Auth") THEN cs ELSE Reject) ELSE
-  IF /\ Live(cs) /\ ~cs.closed /\ HasCur(cs)
-     /\ (cs.auth \/ e.m = "Auth")
-     /\ e.db = cs.db /\ e.auth = cs.auth /\ e.ud = cs.ud /\ e.inreg
-  THEN [cs EXCEPT !.calls = Append(cs.calls, e)]
+  IF Live(cs) /\ ~cs.closed /\ HasCur(cs) /\ e.inreg
+  THEN [cs EXCEPT !.calls = Append(cs.calls, [f \in DOMAIN e \cup {"upto"} |-> IF f = "upto" THEN cs.nreq ELSE e[f]])]
   ELSE Reject
 
 FirstKey(e) == IF e.a = <<>> THEN ""
@@ -195,52 +199,74 @@ OnCallRet(cs, e) ==
   IF cs.calls = <<>> \/ HasRes(cs.calls[Len(cs.calls)]) \/ cs.calls[Len(cs.calls)].m # e.m THEN Reject
   ELSE LET n == Len(cs.calls)
            c == cs.calls[n]
-           c2 == [x \in DOMAIN c \cup {"res"} |-> IF x = "res" THEN e.res ELSE c[x]]
+           c2 == [x \in DOMAIN c \cup {"res"} |-> IF x = "res" THEN e.res ELSE c[x]] IN
+       [cs EXCEPT !.calls = [cs.calls EXCEPT ![n] = c2]]
+
+\* the calls of the request being answered saw this connection's state as it was after the previous request (C13),
+\* were allowed (C08), and ran when the request had been received completely (C11); a call may change the user data
+RECURSIVE SegCtx(_, _, _, _)
+SegCtx(cs, seg, i, ud) ==
+  IF i > Len(seg) THEN [ok |-> TRUE, ud |-> ud]
+  ELSE LET c == seg[i]
            k == FirstKey(c) IN
-       [cs EXCEPT !.calls = [cs.calls EXCEPT ![n] = c2],
-                  !.ud = IF k \in DOMAIN UdOf THEN UdOf[k] ELSE cs.ud]
+       IF /\ HasRes(c)
+          /\ (cs.auth \/ c.m = "Auth")
+          /\ c.db = cs.db /\ c.auth = cs.auth /\ c.ud = ud
+          /\ c.upto >= cs.nrep + 1
+       THEN SegCtx(cs, seg, i + 1, IF k \in DOMAIN UdOf THEN UdOf[k] ELSE ud)
+       ELSE [ok |-> FALSE, ud |-> ud]
 
-\* one complete reply frame v for the current request
-OnReply(cs, v, cfg) ==
-  IF ~HasCur(cs) THEN Reject                              \* a reply nobody asked for
+\* how many of the queued calls belong to the request being answered (x = what the server owes for it)
+FirstAbort(q, m) == LET idx == {i \in 1..m : Aborts(q[i])} IN
+                    IF idx = {} THEN 0 ELSE CHOOSE i \in idx : \A j \in idx : i <= j
+Take(x, q, cfg) ==
+  CASE x.kind = "calls" /\ cfg.rec ->
+         LET m == IF Len(x.e.calls) < Len(q) THEN Len(x.e.calls) ELSE Len(q)
+             a == FirstAbort(q, m) IN
+         {IF a > 0 THEN a ELSE m}                         \* as many as the grammar says, fewer after a handler error
+    [] x.kind \in {"frameany", "oneframe", "derived"} -> 0..Len(q)     \* not stated by the grammar: any prefix
+    [] OTHER -> {0}                                       \* answered by the framework itself: no handler call
+
+\* one complete reply frame v for the oldest unanswered request: the set of possible next states
+Reply1(cs, v, cfg) ==
+  IF ~HasCur(cs) THEN {}                                  \* a reply nobody asked for
   ELSE LET r == Cur(cs)
-           x == ReqExpect(cs, r, cfg)
-           done == [cs EXCEPT !.nrep = cs.nrep + 1, !.calls = <<>>, !.rootreplies = cs.rootreplies + 1] IN
-    CASE x.kind = "exact" -> IF cs.calls = <<>> /\ v = x.v THEN done ELSE Reject
-      [] x.kind = "error" -> IF cs.calls = <<>> /\ v.t = "err" THEN done ELSE Reject
-      [] x.kind = "frameany" -> done
-      [] x.kind = "oneframe" -> done
-      [] x.kind = "derived" -> done
-      [] x.kind = "quit" -> IF cs.calls = <<>> /\ v = OKV THEN [done EXCEPT !.quit = TRUE] ELSE Reject
-      [] x.kind = "select" -> IF cs.calls = <<>> /\ v = OKV THEN [done EXCEPT !.db = x.n] ELSE Reject
-      [] x.kind = "selectany" -> IF cs.calls # <<>> THEN Reject
-                                 ELSE IF v.t = "err" THEN done
-                                 ELSE IF v = OKV /\ IsSmall(x.t) THEN [done EXCEPT !.db = IntVal(x.t)]
-                                 ELSE IF v = OKV THEN [done EXCEPT !.db = 0 - 1]    \* unknown big id: later calls cannot be judged
-                                 ELSE Reject
-      [] x.kind = "auth" -> IF cs.calls = <<>> /\ AuthAllowed(r, cfg, v)
-                            THEN [done EXCEPT !.auth = cs.auth \/ v = OKV] ELSE Reject
-      [] x.kind = "calls" -> IF ~cfg.rec THEN done                    \* store-backed handler: calls are not recorded
-                             ELSE IF CallsMatch(x.e, cs.calls) /\ ReplyFromResults(x.e, cs.calls, v) THEN done ELSE Reject
+           x == ReqExpect(cs, r, cfg) IN
+    UNION {
+      LET seg == SubSeq(cs.calls, 1, k)
+          ctx == SegCtx(cs, seg, 1, cs.ud)
+          done == [cs EXCEPT !.nrep = cs.nrep + 1, !.calls = SubSeq(cs.calls, k + 1, Len(cs.calls)), !.ud = ctx.ud,
+                             !.rootreplies = cs.rootreplies + 1] IN
+      IF ~ctx.ok THEN {}
+      ELSE CASE x.kind = "exact" -> IF v = x.v THEN {done} ELSE {}
+             [] x.kind = "error" -> IF v.t = "err" THEN {done} ELSE {}
+             [] x.kind \in {"frameany", "oneframe", "derived"} -> {done}
+             [] x.kind = "quit" -> IF v = OKV THEN {[done EXCEPT !.quit = TRUE]} ELSE {}
+             [] x.kind = "select" -> IF v = OKV THEN {[done EXCEPT !.db = x.n]} ELSE {}
+             [] x.kind = "selectany" -> IF v.t = "err" THEN {done}
+                                        ELSE IF v = OKV /\ IsSmall(x.t) THEN {[done EXCEPT !.db = IntVal(x.t)]}
+                                        ELSE IF v = OKV THEN {[done EXCEPT !.db = 0 - 1]}    \* unknown big id: later calls cannot be judged
+                                        ELSE {}
+             [] x.kind = "auth" -> IF AuthAllowed(r, cfg, v) THEN {[done EXCEPT !.auth = cs.auth \/ v = OKV]} ELSE {}
+             [] x.kind = "calls" -> IF ~cfg.rec THEN {done}                    \* store-backed handler: calls are not recorded
+                                    ELSE IF CallsMatch(x.e, seg) /\ ReplyFromResults(x.e, seg, v) THEN {done} ELSE {}
+      : k \in Take(x, cs.calls, cfg) }
 
-\* bytes written by the server (C04: they must assemble into exactly one RESP frame per reply)
-OnWrite(cs, b, failed, cfg) ==
-  IF cs.wild THEN      \* arbitrary input: whatever is written must still be a sequence of RESP frames (C04), nothing else is judged
-    (IF ~Live(cs) \/ cs.closed THEN Reject
-     ELSE IF failed THEN cs
-     ELSE LET d == DecStream(cs.wbuf \o b) IN
-          IF d.st = "complete" THEN [cs EXCEPT !.wbuf = <<>>]
-          ELSE IF d.st = "trunc" THEN [cs EXCEPT !.wbuf = SubSeq(cs.wbuf \o b, d.from, Len(cs.wbuf \o b))]
-          ELSE Reject) ELSE
-  IF ~Live(cs) \/ cs.closed \/ cs.quit THEN Reject
-  ELSE IF failed THEN                                     \* the client is gone: the attempt counts, content cannot be judged
-    (IF HasCur(cs) THEN [cs EXCEPT !.nrep = cs.nrep + 1, !.calls = <<>>, !.wbuf = <<>>, !.wfail = TRUE,
-                                  !.rootreplies = cs.rootreplies + 1] ELSE Reject)
-  ELSE LET w == cs.wbuf \o b
-           r == Dec(w, 1) IN
-    IF r.ok THEN (IF r.next = Len(w) + 1 THEN OnReply([cs EXCEPT !.wbuf = <<>>], r.v, cfg) ELSE Reject)   \* bytes after the frame
-    ELSE IF r.why = "trunc" THEN [cs EXCEPT !.wbuf = w]
-    ELSE Reject                                           \* not RESP
+\* Bytes written by the server (C04: they assemble into complete RESP frames, one per request, in order).  States are
+\* pairs [cs, aux]: aux is whatever the trace specification threads through the replies (the model keyspace).  The
+\* trace specification folds Reply1 over the frames of a write (TraceConn!WriteFrames); the cases that need no fold:
+WriteWild(p, b, failed) ==     \* arbitrary input: whatever is written must still be a sequence of RESP frames (C04), nothing else is judged
+  LET cs == p.cs IN
+  IF ~Live(cs) \/ cs.closed THEN {}
+  ELSE IF failed THEN {p}
+  ELSE LET d == DecStream(cs.wbuf \o b) IN
+       IF d.st = "complete" THEN {[p EXCEPT !.cs.wbuf = <<>>]}
+       ELSE IF d.st = "trunc" THEN {[p EXCEPT !.cs.wbuf = SubSeq(cs.wbuf \o b, d.from, Len(cs.wbuf \o b))]}
+       ELSE {}
+WriteFailed(p) ==              \* the client is gone: the attempt counts, content cannot be judged
+  LET cs == p.cs IN
+  IF HasCur(cs) THEN {[p EXCEPT !.cs = [cs EXCEPT !.nrep = cs.nrep + 1, !.calls = <<>>, !.wbuf = <<>>, !.wfail = TRUE,
+                                                  !.rootreplies = cs.rootreplies + 1]]} ELSE {}
 
 OnEos(cs, how) == IF ~cs.opened THEN Reject ELSE [cs EXCEPT !.eos = how]
 
@@ -283,6 +309,11 @@ OnSpanFinish(cs, e) ==
   ELSE IF \E i \in 1..Len(cs.open) : cs.open[i].parent = e.id THEN Reject     \* a child is still open
   ELSE [cs EXCEPT !.open = SelectSeq(cs.open, LAMBDA s : s.id # e.id)]
 
-\* with a tracer installed, a reply is written inside an open root span, one reply per root
-SpanReplyOK(cs) == cs.open # <<>> /\ cs.rootreplies = 0
+\* With a tracer installed every request has exactly one root span (C20).  Judged where the counts are determined:
+\* when the server waits for input every received request has been answered and has had its root span, plus the one
+\* that may be open around the pending read; when the loop ends there is at most one more root than replies (the
+\* iteration that met the end of the stream, QUIT's close or a protocol error).  Where the socket write happens
+\* relative to the spans is not stated by the property (a server may flush replies after closing the span).
+RootsOK(cs) == cs.roots = cs.nrep + (IF cs.open = <<>> THEN 0 ELSE 1)
+RootsAtEndOK(cs) == cs.wfail \/ (cs.roots >= cs.nrep /\ cs.roots <= cs.nrep + 1)
 =============================================================================
